@@ -467,7 +467,10 @@ SET_VALUES = [['int', 0], ['int', 1], ['int', -1], ['int', 255], ['int', 256], [
 
 
 INTS_V = [['int', 0], ['int', 1], ['int', -1], ['int', 255], ['int', 256], ['int', 10 ** 30], ['int', -10 ** 30], ['bool', True], ['str', '3'], ['str', '-3'], ['str', 'zz'], ['str', '']]
-FLOATS_V = [['float', 0.5], ['float', float('nan')], ['float', 1e308], ['float', float('inf')], ['float', -0.0], ['float', -1e39], ['int', 1], ['str', 'nan'], ['str', '1e3'], ['str', 'zz']]
+FLOATS_V = [['float', 0.5], ['float', float('nan')], ['float', 1e308], ['float', float('inf')], ['float', -0.0], ['float', -1e39], ['int', 1], ['str', 'nan'], ['str', '1e3'], ['str', 'zz'],
+            # the edges of the half / single precision ranges that the encoders convert through
+            ['float', 65504.0], ['float', 65519.99], ['float', 65520.0], ['float', -65530.0], ['float', 65535.9], ['float', 65536.0], ['float', 3.4028235e38],
+            ['float', 3.4028236e38], ['float', -3.5e38], ['float', 5e-324], ['float', 448.0], ['float', 57344.0], ['int', 65530], ['float', -float('inf')]]
 STR_V = [['str', 'ff'], ['str', '0b101'], ['str', 'zz'], ['str', ''], ['str', '0xf f_0'], ['str', '17'], ['str', '0o17'], ['str', '1' * 70]]
 BITS_V = [['bits', ['Bits', '1010']], ['bits', ['self']], ['bits', ['str', '101']], ['str', 'zz'], ['bits', ['BitArray', '']], ['bits', ['bytes', '1111000011110000']]]
 
@@ -576,6 +579,11 @@ def gen_case(ctx):
             if name == 'pp' and 'stream' not in kspecs and len(aspecs) < (5 if rk != 'Array' else 4):
                 kspecs['stream'] = ['textsink']
             calls.append([name, aspecs, kspecs])
+            if name == '__imul__':
+                # the receiver has grown: later repeat counts (and everything sized from L) follow the new length
+                v = next((sp[1] for sp in list(aspecs) + list(kspecs.values()) if sp and sp[0] == 'int'), 1)
+                if isinstance(v, int) and v > 1:
+                    L *= v
     return {'receiver': rspec, 'calls': calls, 'lsb0': rng.random() < 0.3, 'oba': rng.random() < 0.1}
 
 
